@@ -1676,8 +1676,28 @@ func (in *inliner) process(f *ssa.Function) {
 		for _, b := range f.Blocks {
 			for _, x := range b.Instrs {
 				cc := callCommon(x)
-				if cc == nil || cc.IsInvoke() {
+				if cc == nil {
 					continue
+				}
+				if cc.IsInvoke() {
+					// a method called through an interface whose dynamic type is known here (a
+					// concrete value was converted to the interface for an inlined helper's
+					// parameter): call the method of that type directly
+					if mi, ok := cc.Value.(*ssa.MakeInterface); ok {
+						if _, isIface := mi.X.Type().Underlying().(*types.Interface); !isIface {
+							if fn := f.Prog.LookupMethod(mi.X.Type(), cc.Method.Pkg(), cc.Method.Name()); fn != nil {
+								delRef(cc.Value, x)
+								cc.Args = append([]ssa.Value{mi.X}, cc.Args...)
+								addRef(mi.X, x)
+								cc.Value = fn
+								cc.Method = nil
+								in.touched[f] = true
+							}
+						}
+					}
+					if cc.IsInvoke() {
+						continue
+					}
 				}
 				if g := staticCallee(cc); g != nil {
 					if in.cand[g] {
